@@ -7,7 +7,7 @@ class C17(PropBase):
     id = 'C17'
     rule = ('for first writes and overwrites of several Sids: a crash injected before the first file-system effect, after every written prefix of the (temporary) file '
             '(each byte boundary in thorough, sampled in quick), before and after the replacement; then reads of the Sid and of its neighbours, a search, and a further set; '
-            'sidecars corrupted by truncation, emptied, or replaced by a directory; non-trivial = an injected crash or corruption; distinct by (scenario, crash point)')
+            'sidecars corrupted by truncation (at each byte of a sidecar holding non-ASCII values), emptied, or replaced by a directory; non-trivial = an injected crash or corruption; distinct by (scenario, crash point)')
     partial_note = 'durability (fsync) and real-kernel atomicity of rename are assumptions; the crash is simulated by intercepting pathlib / os from the harness'
     def confdir(self, ws):
         return core.make_fs_confdir(ws)
@@ -50,6 +50,18 @@ class C17(PropBase):
             out.append(Case('get_data_paths', ['', ['s', sid_b], [], 'str'], 'corrupt-other', m))
             out.append(Case('get_paths', ['', 'hamlet/a/char/x/model/*/*/*', [], 'str'], 'corrupt-search', m))
             out.append(Case('find_all', ['hamlet/a/char/x/**/ma'], 'corrupt-search', m))
+        # truncation at each byte of a sidecar holding non-ASCII values (a strict prefix of a JSON object is never valid JSON)
+        for n in list(range(0, 90)) if tier == 'quick' else list(range(0, 400)):
+            hid += 1
+            m = {'h': hid, 'kind': 'trunc:%d' % n}
+            out.append(Case('fs_reset', [], 'setup', m))
+            for s in (sid_a, sid_b):
+                out.append(Case('w_create', ['', s, [['a', '1']]], 'setup', m))
+            out.append(Case('w_update', ['', sid_a, [['name', 'na\xefve caf\xe9'], ['k', '\xe9' * (1 + n % 7)]]], 'setup', m))
+            out.append(Case('corrupt_sidecar', ['', sid_a, 'trunc:%d' % n], 'corrupt', m))
+            out.append(Case('get_data_paths', ['', ['s', sid_a], [], 'str'], 'corrupt-target', m))
+            out.append(Case('get_data_paths', ['', ['s', sid_b], [], 'str'], 'corrupt-other', m))
+            out.append(Case('get_paths', ['', 'hamlet/a/char/x/model/*/*/*', [], 'str'], 'corrupt-search', m))
         out.append(Case('fs_reset', [], 'setup', {}))
         return out
     def compare(self, case, model, impl):
